@@ -244,3 +244,32 @@ Example C10_ex_bitwise_is_sized_region :
   i_Bitwise_BitsInteger_16_s_ns = bitwise_sized (CBitsInt (kint 128) true false) 16.
 Proof. repeat split; reflexivity. Qed.
 ''')
+
+PROPS['C07'] = dict(
+    title='C07 - context expressions resolve identically when parsing, building and sizing',
+    theorems=[
+        ('CtxFacts', 'up_moves_one_scope', 'Each _ step moves exactly one enclosing structure outward; from the outermost structure it reaches the call context.'),
+        ('CtxFacts', 'root_is_outermost', '_root is the outermost structure\'s scope from any depth.'),
+        ('CtxFacts', 'params_from_any_depth', '_params is the call context from any depth.'),
+        ('CtxFacts', 'params_of_params', '_params._params is the call context again.'),
+        ('CtxFacts', 'params_hold_kwargs', 'The call context holds the keyword arguments.'),
+        ('CtxFacts', 'flags_one_hot', 'Exactly one of _parsing/_building/_sizing is true, according to the entry point, at every depth.'),
+        ('CtxFacts', 'flags_one_hot_top', '... and in the call context.'),
+        ('CtxFacts', 'push_keeps_outer', 'Pushing a scope leaves every enclosing scope where it was, one level further out.'),
+        ('CtxFacts', 'push_keeps_top', '... and the call context and the mode unchanged.'),
+        ('CtxFacts', 'this_sees_sibling', 'this.x sees the value stored for a sibling.'),
+        ('CtxFacts', 'index_is_current', '_index is the current repetition index.'),
+        ('CtxFacts', 'index_inherited_by_pushed_scope', 'A structure nested in a repetition sees the current index.'),
+        ('CtxFacts', 'eval_mode_independent', 'EVERY expression that does not name a flag evaluates identically in parse, build and sizeof contexts with the same scope chain (induction on the expression).'),
+        ('CtxFacts', 'eval_same_in_all_modes', '... in particular at the three entry points.'),
+    ],
+    examples='''
+Example C07_ex_nested :
+  parse_at (CStruct [CRenamed [x6d] (CComputed (XConst (VInt 1)));
+                     CRenamed [x63] (CArray (XConst (VInt 2)) (CStruct [CRenamed [x6d] (CComputed (XConst (VInt 2)));
+                        CRenamed [x70] (CComputed (XBin OAdd (XItem (XItem (XRoot RThis) (KName [x5f])) (KName [x6d]))
+                                                   (XBin OMul (XItem (XRoot RThis) (KName [x5f; x69; x6e; x64; x65; x78])) (XItem (XItem (XRoot RThis) (KName [x5f; x70; x61; x72; x61; x6d; x73])) (KName [x6b])))))]))])
+           [([x6b], VInt 10)] [] 0
+  = Ok (VDict [([x6d], VInt 1); ([x63], VList [VDict [([x6d], VInt 2); ([x70], VInt 1)]; VDict [([x6d], VInt 2); ([x70], VInt 11)]])], 0%Z).
+Proof. vm_compute; reflexivity. Qed.
+''')
